@@ -153,6 +153,7 @@ func runC11(w *fw.Worker) {
 	// the worker's own environment must not supply variables (PATH, HOME, ...)
 	os.Clearenv()
 	var noPrefixVars []string
+	envVars := 0
 	noise := int64(0)
 	w.Cases(func(i int, r *fw.Rand) {
 		o := gen.GenOpts{MaxDepth: 3 - r.Intn(2), MaxFields: r.Range(2, 6), StructPct: r.Range(10, 45), TagPct: r.Range(0, 50), SkipPct: r.Range(0, 15),
@@ -174,6 +175,12 @@ func runC11(w *fw.Worker) {
 			os.Unsetenv(v)
 		}
 		noPrefixVars = noPrefixVars[:0]
+		if envVars > 60000 {
+			envVars = 0
+			// the noise of earlier cases is kept bounded (lookups and os.Environ() cost grows with it)
+			os.Clearenv()
+			w.Count("environment_resets", 1)
+		}
 		if !gen.FlattenedNamesDistinct(leaves) {
 			w.Count("skipped_ambiguous_variable_names", 1)
 			return
@@ -215,6 +222,7 @@ func runC11(w *fw.Worker) {
 		}
 		set := func(k, v string) {
 			os.Setenv(k, v)
+			envVars++
 			if prefix == "" {
 				noPrefixVars = append(noPrefixVars, k)
 			}
